@@ -215,9 +215,24 @@ impl Property for C11 {
     fn run(&self, s: &Streams) -> CaseOut {
         let mut out = CaseOut::new();
         out.owns_panics = true;
-        let built = gen_case(&mut Ch::new(&s[0]), &fit_cfg());
-        let mut text = built_text(&built);
+        let mut built = gen_case(&mut Ch::new(&s[0]), &fit_cfg());
         let mut ech = Ch::new(&s[2]);
+        // One case in twelve with a virtual signal: a statement that reads the virtual signal's name is put at the
+        // start or at the end of the program (`let rvq = (V + 0);`, or a `declare` over it). A virtual signal is not an
+        // output-capable signal of the list - unless a variable of that name is in scope, the test fits no list.
+        if !built.analysis.virtuals.is_empty() && Ch::new(&s[1]).chance(1, 12) {
+            let v = built.analysis.virtuals[ech.upto(built.analysis.virtuals.len())].clone();
+            let e = Expr::Group(Box::new(Expr::bin(BinOp::Add, Expr::var(&v), Expr::lit(0))));
+            let st = if ech.chance(1, 3) { Stmt::Declare("rvq".into(), e) } else { Stmt::Let("rvq".into(), e) };
+            if ech.chance(1, 2) {
+                built.prog.stmts.insert(0, st);
+            } else {
+                built.prog.stmts.push(st);
+            }
+            built.analysis = analyse(&built.prog);
+            out.class_if(built.analysis.reads.contains(&v), "program-reads-a-virtual-signal");
+        }
+        let mut text = built_text(&built);
         // a third of the texts end without a line break behind their last line
         if ech.chance(1, 3) {
             while text.ends_with('\n') {
